@@ -166,6 +166,8 @@ def _style_tables_in_worksheet(
         table_rows = [
             r[0:true_num_cols] for r in rows[i_start : i_start + true_num_rows + num_header_rows]
         ]
+        # trailing rows without cells (a table without columns) are not materialised by openpyxl
+        table_rows += [()] * (true_num_rows + num_header_rows - len(table_rows))
 
         table_name_cells = table_rows[0]
         destination_cells = table_rows[1]
